@@ -1,6 +1,7 @@
 (** Protocol operations for C06 (see Lib/Val.v, Run/PbcmplOps.v). *)
 From Coq Require Import ZArith List Bool String.
-From Low Require Import Lib.BitSeq Lib.Bytes Lib.Val Model.Pbcmpl Spec.PbcmplSpec Run.PbcmplOps.
+From Low Require Import Lib.BitSeq Lib.Bytes Lib.Val Model.Pbcmpl Model.PbcmplWalk Spec.PbcmplSpec Spec.PbcmplWalkSpec
+  Run.PbcmplOps Run.PbcmplWalkOps.
 Import ListNotations.
 Open Scope string_scope.
 Open Scope Z_scope.
@@ -79,6 +80,61 @@ Definition ops_C06 : list opdef := [
      op_spec := fun_spec (fun a => match a with
        | [k; m; pat] => match as_z k, as_msg m with
            | Some k, Some m => v_readheader (32, None, ver_of (fst m), 32, zlen (k_enc k (snd m)))
+           | _, _ => VBad end
+       | _ => VBad end) |};
+  (* widening: [kind, [msg, ...], chunk pattern, eof with last chunk, positions]: as pbcmpl.Roundtrip, but the
+     reader additionally returns (0, nil) — an empty chunk — before the chunks at the given positions *)
+  {| op_name := "pbcmpl.Roundtrip/empties";
+     op_run := fun a => match a with
+       | [k; ms; pat; wl; pos] => match as_z k, as_list ms, as_zs pat, as_bool wl, as_zs pos with
+           | Some k, Some ms, Some pat, Some wl, Some pos =>
+               match opt_all (map as_msg ms) with
+               | Some ms =>
+                   if c06_kind_ok k && forallb msg_ok ms && all_pos pat && all_nonneg pos then
+                     match model_wire k ms with
+                     | None => VPanic
+                     | Some wire =>
+                         match c_Stream k (insert_empties pos (chunks_of pat wire), term_of 0 wl) with
+                         | None => VPanic
+                         | Some (steps, r') => VL [vzs wire; VL (map v_step steps); vzs (rd_bytes r')]
+                         end
+                     end
+                   else VBad
+               | None => VBad end
+           | _, _, _, _, _ => VBad end
+       | _ => VBad end;
+     op_spec := fun_spec (fun a => match a with
+       | [k; ms; pat; wl; pos] => match as_z k, as_list ms with
+           | Some k, Some ms =>
+               match opt_all (map as_msg ms) with
+               | Some ms => VL [vzs (wire_of (k_enc k) ms); VL (map v_step (frames_steps (k_enc k) 0 ms)); vzs []]
+               | None => VBad end
+           | _, _ => VBad end
+       | _ => VBad end) |};
+  (* widening: [kind, [msg, ...], chunk pattern, eof with last chunk] -> the frames are marshalled into one
+     buffer, which is then walked with ReadHeader + io.ReadFull (no decoding):
+     [[[n, errclass, ver, hsize, bsize, body bytes, refused] per step], left] *)
+  {| op_name := "pbcmpl.Walk/frames";
+     op_run := fun a => match a with
+       | [k; ms; pat; wl] => match as_z k, as_list ms, as_zs pat, as_bool wl with
+           | Some k, Some ms, Some pat, Some wl =>
+               match opt_all (map as_msg ms) with
+               | Some ms =>
+                   if c06_kind_ok k && forallb msg_ok ms && forallb (walk_body_ok k) ms && all_pos pat then
+                     match model_wire k ms with
+                     | None => VPanic
+                     | Some wire => v_walk_model (chunks_of pat wire, term_of 0 wl)
+                     end
+                   else VBad
+               | None => VBad end
+           | _, _, _, _ => VBad end
+       | _ => VBad end;
+     op_spec := fun_spec (fun a => match a with
+       | [k; ms; pat; wl] => match as_z k, as_list ms with
+           | Some k, Some ms =>
+               match opt_all (map as_msg ms) with
+               | Some ms => VL [VL (map v_wstep (frames_walk (k_enc k) ms)); vzs []]
+               | None => VBad end
            | _, _ => VBad end
        | _ => VBad end) |}
 ].
